@@ -189,3 +189,96 @@ class FsSeam:
             yield self
         finally:
             self.uninstall()
+
+
+class LineSeam:
+    """Line-level pre-emption inside named repository functions (PEP 669, sys.monitoring).
+
+    Every executed line of the listed functions becomes a scheduler yield point while a
+    pre-emptive policy is active.  Functions are located by qualified name, never by line number.
+    """
+
+    TOOL = 4  # sys.monitoring tool id (free slot; DEBUGGER=0, COVERAGE=1, PROFILER=2, OPTIMIZER=5)
+    DEFAULT = (
+        ("pyxel.observation.observation_dask", "_run_pipelines_array_to_datatree"),
+        ("pyxel.observation.observation_dask", "_run_pipelines_tuple_to_array"),
+        ("pyxel.exposure.exposure", "run_pipeline"),
+        ("pyxel.pipelines.processor", "Processor.replace"),
+        ("pyxel.pipelines.processor", "Processor.set"),
+        ("pyxel.observation.misc", "create_new_processor"),
+        ("pyxel.util.randomize", "set_random_seed"),
+        ("pyxel.pipelines.model_group", "ModelGroup.run"),
+        ("pyxel.pipelines.model_function", "ModelFunction.__call__"),
+    )
+
+    def __init__(self, targets=None):
+        self.targets = tuple(targets) if targets is not None else self.DEFAULT
+        self.codes: list = []
+        self.hits = 0
+        self._on = False
+
+    def _resolve(self):
+        import importlib
+
+        out = []
+        for modname, qual in self.targets:
+            try:
+                obj = importlib.import_module(modname)
+                for part in qual.split("."):
+                    obj = getattr(obj, part)
+                fn = getattr(obj, "__wrapped__", obj)
+                fn = getattr(fn, "__func__", fn)
+                code = getattr(fn, "__code__", None)
+                if code is not None:
+                    out.append(code)
+            except Exception:  # noqa: BLE001 - a renamed function simply is not monitored (reported in evidence)
+                continue
+        return out
+
+    def install(self) -> None:
+        import sys
+
+        mon = sys.monitoring
+        self.codes = self._resolve()
+        try:
+            mon.use_tool_id(self.TOOL, "pyxsim-line-seam")
+        except ValueError:
+            mon.free_tool_id(self.TOOL)
+            mon.use_tool_id(self.TOOL, "pyxsim-line-seam")
+
+        def on_line(code, lineno):
+            sim = sched.current_sim()
+            if sim is not None:
+                self.hits += 1
+                sim.yield_point("line")
+
+        mon.register_callback(self.TOOL, mon.events.LINE, on_line)
+        for code in self.codes:
+            mon.set_local_events(self.TOOL, code, mon.events.LINE)
+        self._on = True
+
+    def uninstall(self) -> None:
+        import sys
+
+        if not self._on:
+            return
+        mon = sys.monitoring
+        for code in self.codes:
+            try:
+                mon.set_local_events(self.TOOL, code, 0)
+            except Exception:  # noqa: BLE001
+                pass
+        mon.register_callback(self.TOOL, mon.events.LINE, None)
+        try:
+            mon.free_tool_id(self.TOOL)
+        except Exception:  # noqa: BLE001
+            pass
+        self._on = False
+
+    @contextlib.contextmanager
+    def active(self):
+        self.install()
+        try:
+            yield self
+        finally:
+            self.uninstall()
